@@ -14,7 +14,7 @@ CONSTANTS
   AllowCorrupt = TRUE
   MaxPuts = 3
   MaxRestarts = 2
-  MaxOps = 6
+  MaxOps = 5
 VIEW View
 ACTION_CONSTRAINT Export
 CHECK_DEADLOCK FALSE
